@@ -38,6 +38,7 @@ func runC26(c *Ctx) {
 	c.rule(P, "cookie", "entry cookie = index+1; resume skips indices < cookie; eof = !stopped-for-size", 6)
 	runC26OrderPreserved(c)
 	runC26EntrySkip(c, P)
+	runInvalRemoves(c, P, "DirCache", "entries")
 	runCacheKeyAgreement(c, P)
 	ent, err := p.entrySet()
 	if err != nil {
